@@ -163,8 +163,13 @@ def run_isolated(fn, case, hard_timeout=150):
             os.close(r)
             os.setsid()
             d = os.path.join(WORK, "%d" % os.getpid())
-            os.makedirs(d, exist_ok=True)
-            os.chdir(d)
+            for _ in range(20):
+                try:
+                    os.makedirs(d, exist_ok=True)
+                    os.chdir(d)
+                    break
+                except OSError:
+                    time.sleep(0.01)
             dn = os.open(os.devnull, os.O_WRONLY)
             os.dup2(dn, 1)
             os.dup2(dn, 2)
@@ -221,10 +226,6 @@ def run_isolated(fn, case, hard_timeout=150):
         except Exception:
             pass
         shutil.rmtree(os.path.join(WORK, "%d" % pid), ignore_errors=True)
-        try:
-            os.rmdir(WORK)
-        except OSError:
-            pass
 
 
 def _jdefault(o):
